@@ -594,6 +594,31 @@ example : Guess.msaVote [Guess.guessZ (Guess.sqCount (str "ACGUACGUACGU") (List.
       Guess.guessZ (Guess.sqCount (str "ACDEFGHIKLMN") (List.replicate 26 0) 0)] = 0 ∧
     Guess.msaGuess Guess.guessZ [str "ACGUACGUACGU", str "ACDEFGHIKLMN"] = some (true, 3) := by decide +kernel
 
+/-- **`esl_msa_GuessAlphabet`, both forms** (round 6): `strict = false` is `msa_guess_spec` above (an undecided vote always falls
+    through to the pooled pass); `strict = true` is what the header documents — rows called amino AND rows called nucleic ⇒
+    indeterminate; the pooled pass only when NO row was classified. The driver runs the form the tree has (next theorem). -/
+theorem msa_guess_both_forms (strict : Bool) (g : List Int → Nat) (rows : List (List Nat)) :
+    Guess.msaGuessV strict g rows = some (
+      let types := rows.map fun r => g (Guess.sqCount r (List.replicate 26 0) 0)
+      let t := Guess.msaVote types
+      if t ≠ 0 then (true, t)
+      else if strict && types.any (· != 0) then (false, 0)
+      else (decide (g (Guess.sqCount rows.flatten (List.replicate 26 0) 0) ≠ 0),
+            g (Guess.sqCount rows.flatten (List.replicate 26 0) 0))) ∧
+    Guess.msaGuessV false g rows = Guess.msaGuess g rows :=
+  ⟨Guess.msaGuessV_spec strict g rows, Guess.msaGuessV_false g rows⟩
+
+/-- which form the tree has is regenerated on every run: `msaMixedProbe` = the code's answer on `ACGUACGUACGU` / `ACDEFGHIKLMN`
+    (eslAMINO = 3: falls through; eslUNKNOWN = 0: documented behaviour); the model run in that form gives the same answer — any
+    third behaviour fails this proof -/
+theorem msa_mixed_probe_regenerated :
+    (Guess.msaGuessV (Generated.AlphabetsAux.msaMixedProbe == 0) Guess.guessZ [str "ACGUACGUACGU", str "ACDEFGHIKLMN"]).map (·.2) =
+      some Generated.AlphabetsAux.msaMixedProbe := by decide +kernel
+
+example : Guess.msaGuessV true Guess.guessZ [str "ACGUACGUACGU", str "ACDEFGHIKLMN"] = some (false, 0) ∧
+    Guess.msaGuessV true Guess.guessZ [str "ACGU", str "ACGU", str "ACGU"] = some (true, 1) ∧
+    Guess.msaGuessV true Guess.guessZ [str "ACGUACGUACGU", str "ACGTACGTACGT"] = some (true, 2) := by decide +kernel
+
 /-- **the counting loop of `esl_sq_GuessAlphabet` (= the per-row loop and, by `msa_guess_spec`, the pooled loop of
     `esl_msa_GuessAlphabet`) on EVERY 8-bit string** — no bound on the number of letters: counter `l` = occurrences (either
     case) of letter `l` in the shortest prefix holding 10001 letters (`Guess.takeLetters`: the loop breaks after counting the
